@@ -34,7 +34,7 @@ COMPONENTS = {
     "real": ["canopen.nmt (NmtBase, NmtMaster, NmtSlave, tables)", "canopen.Network NMT master", "RemoteNode/LocalNode wiring", "canopen.network.PeriodicMessageTask"],
     "stub": ["CAN backend (SimBus)", "can.Notifier", "threading.Condition and time inside canopen.nmt (simulator primitives, virtual clock)", "python-can cyclic task (SimCyclicTask)"],
 }
-PROBES = ["node-guarding-running", "cmd-own", "cmd-broadcast", "cmd-other", "undefined-cs", "invalid-name", "bootup-byte", "toggle-bit-set", "wait-hb-returned", "wait-hb-timeout",
+PROBES = ["node-guarding-running", "pdo-configuration-read-on-the-same-node", "cmd-own", "cmd-broadcast", "cmd-other", "undefined-cs", "invalid-name", "bootup-byte", "toggle-bit-set", "wait-hb-returned", "wait-hb-timeout",
           "wait-bootup-returned", "wait-bootup-timeout", "slave-heartbeat", "device-bootup-inline", "device-bootup-deferred", "waiters-served", "stale-heartbeat-before-wait"]
 # probes that mark an injected disturbance; the runner also counts them as fired faults in the evidence
 FAULT_PROBES = {'stale-heartbeat-before-wait': 'stale-heartbeat',
@@ -78,6 +78,13 @@ class W:
         for nid in (self.own, self.other):
             od = canopen.ObjectDictionary()
             od.add_object(world.var("Producer heartbeat time", 0x1017, 0, odm.UNSIGNED16, "rw", default=0))
+            # an unused TPDO as devices ship it: COB-ID 0x80000000 (invalid, no id assigned), nothing mapped
+            od.add_object(world.record("TPDO1 comm", 0x1800, [
+                world.var("n", 0x1800, 0, odm.UNSIGNED8, "ro", default=2),
+                world.var("COB-ID", 0x1800, 1, odm.UNSIGNED32, "rw", default=0x80000000),
+                world.var("Type", 0x1800, 2, odm.UNSIGNED8, "rw", default=255)]))
+            od.add_object(world.record("TPDO1 map", 0x1A00, [world.var("n", 0x1A00, 0, odm.UNSIGNED8, "rw", default=0)] +
+                                       [world.var("e%d" % k, 0x1A00, k, odm.UNSIGNED32, "rw", default=0) for k in range(1, 9)]))
             self.r[nid] = canopen.RemoteNode(nid, canopen.ObjectDictionary())
             self.mnet.add_node(self.r[nid])
             self.l[nid] = canopen.LocalNode(nid, od)
@@ -529,6 +536,12 @@ def scenario(ctx):
         for x in (a, b, c):
             _command(ctx, w, x % 10, x // 10)
         return
+    if mode in (0, 2) and ctx.choice(3, "pdo-read") == 1:
+        # the PDO service of the same node is set up next to NMT: the node's PDO configuration (one unused TPDO) is read
+        _, exc = call(w.l[w.own].tpdo.read)
+        if exc is not None:
+            ctx.violation("C11/nmt-call-raised/%s@%s" % (type(exc).__name__, site(exc)), "tpdo.read() of the local node raised %r" % (exc,))
+        ctx.probe("pdo-configuration-read-on-the-same-node")
     if mode in (0, 2) and ctx.choice(3, "guarding") == 1:
         # node guarding is running for the node (remote requests on 0x700+id at a fixed rate): commands, heartbeats, boot-up
         # messages and waits are handled as without it - the toggle bit stays ignored, whatever it is
